@@ -221,6 +221,123 @@ Proof.
     unfold has_slash in H2. cbn in H2. rewrite E2 in H2. discriminate.
 Qed.
 
+(* ---- pathlib normalisation is idempotent ---- *)
+Lemma split_slash_clean x : forall cur, has_slash x = false -> split_slash x cur = [rev cur ++ x].
+Proof.
+  induction x as [|c x IH]; intros cur H; cbn.
+  - rewrite app_nil_r. reflexivity.
+  - unfold has_slash in H. cbn in H. destruct (c =? SL)%N eqn:E; [discriminate|]. cbn in H.
+    rewrite IH by exact H. cbn. rewrite <- app_assoc. reflexivity.
+Qed.
+
+Lemma split_slash_clean_then x rest : forall cur, has_slash x = false ->
+  split_slash (x ++ SL :: rest) cur = (rev cur ++ x) :: split_slash rest [].
+Proof.
+  induction x as [|c x IH]; intros cur H; cbn.
+  - rewrite app_nil_r. reflexivity.
+  - unfold has_slash in H. cbn in H. destruct (c =? SL)%N eqn:E; [discriminate|]. cbn in H.
+    rewrite IH by exact H. cbn. rewrite <- app_assoc. reflexivity.
+Qed.
+
+Lemma split_slash_join parts : parts <> [] -> Forall (fun p => has_slash p = false) parts ->
+  split_slash (join_with [SL] parts) [] = parts.
+Proof.
+  induction parts as [|q t IH]; intros Hne H; [contradiction|].
+  inversion H as [|? ? Hq Ht]; subst. destruct t as [|q2 t'].
+  - cbn. apply split_slash_clean. exact Hq.
+  - change (join_with [SL] (q :: q2 :: t')) with (q ++ [SL] ++ join_with [SL] (q2 :: t')). cbn [app].
+    rewrite split_slash_clean_then by exact Hq. cbn [rev app]. f_equal. apply IH; [discriminate | exact Ht].
+Qed.
+
+Lemma path_parts_keep rel : Forall (fun p => keep_part p = true) (path_parts rel).
+Proof. unfold path_parts. apply Forall_forall. intros p Hp. apply filter_In in Hp. tauto. Qed.
+
+Lemma path_parts_clean rel : Forall (fun p => has_slash p = false) (path_parts rel).
+Proof.
+  unfold path_parts. destruct (split_slash_no_slash rel []) as [Hs|Hs]; [|cbn in Hs; discriminate].
+  apply Forall_forall. intros p Hp. apply filter_In in Hp. rewrite Forall_forall in Hs. apply Hs. tauto.
+Qed.
+
+Lemma filter_all {A} (f : A -> bool) l : Forall (fun x => f x = true) l -> filter f l = l.
+Proof. induction 1 as [|x l Hx Hl IH]; [reflexivity|]. cbn. rewrite Hx, IH. reflexivity. Qed.
+
+Lemma path_parts_join parts : parts <> [] -> Forall (fun p => has_slash p = false) parts ->
+  Forall (fun p => keep_part p = true) parts -> path_parts (join_with [SL] parts) = parts.
+Proof.
+  intros Hne Hc Hk. unfold path_parts. rewrite split_slash_join by assumption. apply filter_all, Hk.
+Qed.
+
+Lemma splitroot_shape p : fst (splitroot p) = [] \/ fst (splitroot p) = [SL] \/ fst (splitroot p) = [SL; SL].
+Proof.
+  destruct p as [|c1 [|c2 [|c3 t]]]; cbn; auto.
+  - destruct (c1 =? SL)%N; cbn; auto.
+  - destruct (c1 =? SL)%N; cbn; auto. destruct (c2 =? SL)%N; cbn; auto.
+  - destruct (c1 =? SL)%N; cbn; auto. destruct (c2 =? SL)%N; cbn; auto. destruct (c3 =? SL)%N; cbn; auto.
+Qed.
+
+Lemma splitroot_rebuild root c x : (c =? SL)%N = false -> root = [] \/ root = [SL] \/ root = [SL; SL] ->
+  splitroot (root ++ c :: x) = (root, c :: x).
+Proof.
+  intros Hc [-> | [-> | ->]]; cbn; rewrite ?Hc; try reflexivity.
+Qed.
+
+Lemma join_head parts : parts <> [] -> Forall (fun p => has_slash p = false) parts -> Forall (fun p => keep_part p = true) parts ->
+  exists c x, join_with [SL] parts = c :: x /\ (c =? SL)%N = false.
+Proof.
+  intros Hne Hc Hk. destruct parts as [|q t]; [contradiction|].
+  inversion Hc; subst. inversion Hk; subst. destruct q as [|c q]; [discriminate|].
+  assert (E : (c =? SL)%N = false).
+  { unfold has_slash in H1. cbn in H1. destruct (c =? SL)%N; [discriminate | reflexivity]. }
+  destruct t; cbn; eauto.
+Qed.
+
+(* str(Path(str(Path(p)))) = str(Path(p)) : the normalisation is idempotent, so a resolved location that is resolved
+   again (absolute path handed down the include tree) does not change *)
+Theorem path_str_idempotent p : path_str (path_str p) = path_str p.
+Proof.
+  unfold path_str at 2 3. destruct (splitroot p) as [root rel] eqn:E.
+  pose proof (splitroot_shape p) as Hshape. rewrite E in Hshape. cbn [fst] in Hshape.
+  pose proof (path_parts_keep rel) as Hk. pose proof (path_parts_clean rel) as Hc.
+  destruct (path_parts rel) as [|q t] eqn:Ep.
+  - cbn [join_with]. rewrite app_nil_r. destruct Hshape as [-> | [-> | ->]]; reflexivity.
+  - assert (Hne : q :: t <> []) by discriminate.
+    destruct (join_head (q :: t) Hne Hc Hk) as [c [x [Ej Hcs]]].
+    rewrite Ej.
+    assert (Es : root ++ c :: x <> []) by (destruct root; discriminate).
+    destruct (root ++ c :: x) as [|s0 s] eqn:Ers; [contradiction|]. rewrite <- Ers. clear Es.
+    unfold path_str. rewrite splitroot_rebuild by assumption.
+    rewrite <- Ej, path_parts_join by assumption. rewrite Ej, Ers. reflexivity.
+Qed.
+
+Lemma is_url_spec_slash u : starts_with_slash u = true -> is_url_spec u = false.
+Proof.
+  destruct u as [|c t]; [discriminate|]. cbn. intros H. apply N.eqb_eq in H. subst c. reflexivity.
+Qed.
+
+Lemma path_str_absolute u : starts_with_slash u = true -> starts_with_slash (path_str u) = true.
+Proof.
+  intros H. unfold path_str. destruct (splitroot u) as [root rel] eqn:E.
+  assert (Hr : root = [SL] \/ root = [SL; SL]).
+  { destruct u as [|c1 t1]; [discriminate|]. cbn in H. cbn in E. rewrite H in E.
+    destruct t1 as [|c2 t2]; [inversion E; auto|]. destruct (c2 =? SL)%N; [|inversion E; auto].
+    destruct t2 as [|c3 t3]; [inversion E; auto|]. destruct (c3 =? SL)%N; inversion E; auto. }
+  destruct Hr as [-> | ->]; reflexivity.
+Qed.
+
+(* an absolute path that was resolved once is a fixed point of resolution, from every includer: handing a resolved
+   location down the include tree does not change it *)
+Theorem ufr_absolute_path_fixed b1 b2 u : starts_with_slash u = true ->
+  exists r, url_file_relative b1 u = Some r /\ url_file_relative b2 r = Some r /\ starts_with_slash r = true.
+Proof.
+  intros H. exists (path_str u). rewrite !ufr_resolution. unfold resolve_spec.
+  rewrite (is_url_spec_slash u H), H.
+  rewrite (is_url_spec_slash _ (path_str_absolute u H)), (path_str_absolute u H), path_str_idempotent. auto.
+Qed.
+
+Theorem ufr_absolute_url_fixed b1 b2 u : is_url_spec u = true ->
+  url_file_relative b1 u = Some u /\ url_file_relative b2 u = Some u.
+Proof. intros H. rewrite !ufr_resolution. unfold resolve_spec. rewrite H. auto. Qed.
+
 Theorem ufr_relative_path_base base u : is_url_spec u = false -> starts_with_slash u = false -> is_url_spec base = false ->
   url_file_relative base u = Some (path_join (dirname base) (path_str u)) /\
   str_prefix (dirname base) (path_join (dirname base) (path_str u)) = true.
